@@ -8,6 +8,7 @@
 -/
 import RbModel.Norm
 import RbModel.Lemmas.Norm
+import RbModel.Lemmas.NormBlock
 import RbModel.Gen.Norm
 import RbModel.Gen.NormRef
 
@@ -284,6 +285,78 @@ theorem C09_recompose_step (comp : Nat → Nat → Option Nat) (has : Nat → Bo
       split <;> simp_all
     · rw [recomposeSpec]
       split <;> simp_all
+
+/-! ## the recomposition round on every buffer, and its blocking side -/
+
+/-- **Third round, any buffer** (no hypothesis on the records): the output code points are
+    `recomposeFull` (Lemmas/NormBlock.lean) of the code points, mark bits and modified classes.  Going left to
+    right with a current starter `a` and the records kept after it: a record is absorbed into `a` iff it is a
+    mark, is not blocked, `comp a m` is defined and the font maps it (`absorbs`); a record that is not absorbed
+    and has modified class 0 — a base character, but also an enclosing mark, U+034F, a spacing mark … —
+    becomes the new starter and everything before it is final (`recomposeFull_done`).  On `starter + marks of
+    non-zero class` this is `recomposeSpec` of `C09_recompose` (second part). -/
+theorem C09_recompose_all (U : UData) (F : Font) (K : Consts) (x : Info) (rest : List Info) (flags : Nat) :
+    (round3 U F K (x :: rest) flags).1.map (·.cp) =
+      recomposeFull U.comp F.has [] x.cp [] (rest.map Info.view) ∧
+    ((∀ m ∈ rest, m.isMark = true ∧ m.mcc ≠ 0) →
+      recomposeFull U.comp F.has [] x.cp [] (rest.map Info.view) =
+        (recomposeSpec U.comp F.has x.cp [] (rest.map cm)).1 ::
+          (recomposeSpec U.comp F.has x.cp [] (rest.map cm)).2.map (·.1)) := by
+  refine ⟨round3_full U F K x rest flags, fun h => ?_⟩
+  have := recomposeFull_eq_spec U.comp F.has [] x.cp [] (rest.map Info.view) (by
+    intro m hm
+    obtain ⟨i, hi, rfl⟩ := List.mem_map.mp hm
+    exact h i hi)
+  have hcm : (fun i : Info => (i.cp, i.mcc)) = cm := rfl
+  simpa [List.map_map, Function.comp_def, Info.view, hcm] using this
+
+/-- **Recomposition never crosses a character of combining class 0.**  Let the buffer be
+    `x :: l1 ++ z :: l2` where `z` has modified class 0 and cannot be absorbed itself (it is not a mark, or the
+    font maps no composite that has `z` as its second component — every base letter, every enclosing mark,
+    U+034F).  Then the third round gives the result of the round on `x :: l1` followed by the result of the
+    round on `z :: l2`, each computed on its own: no record after `z` is composed with the starter before `z`
+    (or with anything else before `z`), whatever its class, and whatever the font maps.  The scratch flags do
+    not matter for the code points, so they are arbitrary on the right. -/
+theorem C09_recompose_never_crosses_ccc0 (U : UData) (F : Font) (K : Consts) (x : Info) (l1 : List Info)
+    (z : Info) (l2 : List Info) (flags f1 f2 : Nat)
+    (hz : z.mcc = 0)
+    (hna : z.isMark = false ∨ ∀ a c, U.comp a z.cp = some c → F.has c = false) :
+    (round3 U F K (x :: (l1 ++ z :: l2)) flags).1.map (·.cp) =
+      (round3 U F K (x :: l1) f1).1.map (·.cp) ++ (round3 U F K (z :: l2) f2).1.map (·.cp) := by
+  rw [round3_full, round3_full, round3_full, List.map_append, List.map_cons]
+  exact recomposeFull_split U.comp F.has [] x.cp [] (l1.map Info.view) z.view (l2.map Info.view) hz hna
+
+/-- non-vacuity: U+20DD COMBINING ENCLOSING CIRCLE is a mark of class 0 that is the second component of no
+    row of the crate's composition table, so the hypotheses hold for every font -/
+example : let z : Info := { cp := 0x20DD, mask := 0, cluster := 1, gidx := 0, props := { cls := 1, hi := 0 } }
+    z.isMark = true ∧ z.mcc = 0 ∧ (Norm.compTable.all fun r => r.1 % 2 ^ 32 != 0x20DD) = true := by
+  intro z
+  exact ⟨by decide, by decide, by decide +kernel⟩
+
+/-- **The same from every state of the loop, for a blocked class-0 record**: when something is kept after
+    the starter (`mid ≠ []`, e.g. a mark the font has no composite for), a record `z` of class 0 is never
+    composed with the starter — even if it is a mark and `comp s z` is defined and mapped — because
+    `mcc(prev) < mcc(z) = 0` is false; it becomes the starter, and the out-buffer `pre ++ s :: mid` is
+    final. -/
+theorem C09_recompose_ccc0_becomes_starter (U : UData) (F : Font) (K : Consts) (pre : List Info) (s : Info)
+    (mid : List Info) (z : Info) (rest : List Info) (flags f2 : Nat) (hz : z.mcc = 0) (hmid : mid ≠ []) :
+    (round3Go U F K (z :: rest) pre s mid flags).1.map (·.cp) =
+      (pre ++ s :: mid).map (·.cp) ++ (round3 U F K (z :: rest) f2).1.map (·.cp) := by
+  rw [round3Go_full, round3_full, List.map_cons]
+  rw [recomposeFull_split_after_kept U.comp F.has _ s.cp (mid.map cm) z.view (rest.map Info.view) hz
+    (by simpa using hmid)]
+  have hzc : z.view.cp = z.cp := rfl
+  simp [cm, List.map_map, Function.comp_def, hzc]
+
+/-- the seed class, computed on the crate's tables with a font that maps everything: `a U+20DD U+0301` stays
+    as it is (U+00E1 is not formed across the enclosing circle), while `a U+0301 U+20DD` composes -/
+example :
+    let mk (cp ccc : Nat) : Info := { cp := cp, mask := 0, cluster := 0, gidx := 0, props := { cls := 1, hi := ccc } }
+    let a : Info := { cp := 0x61, mask := 0, cluster := 0, gidx := 0, props := {} }
+    let F : Font := { glyph := fun c => some c }
+    (round3 genU F genK [a, mk 0x20DD 0, mk 0x301 230] 0).1.map (·.cp) = [0x61, 0x20DD, 0x301] ∧
+    (round3 genU F genK [a, mk 0x301 230, mk 0x20DD 0] 0).1.map (·.cp) = [0xE1, 0x20DD] := by
+  decide +kernel
 
 /-! ## one cluster, all three rounds -/
 
